@@ -229,3 +229,19 @@ Proof.
   repeat split; try (vm_compute; reflexivity); try discriminate.
   vm_compute. intros r [H|[]]. subst. reflexivity.
 Qed.
+
+(* ---------------------------------------------------------------------------------------------------------------
+   Of the SOURCE: FastEnforcer.enforce (casbin/fast_enforcer.py) and the filter it puts around the ordinary decision procedure
+   (casbin/model/policy_fast.py: fast_policy_filter, FastPolicy.apply_filter, clear_filter; in_cache compared with its recognised
+   body) are re-translated on every run (translators/fastenforce.py, FastLang.v: every statement one recognised step);
+   FastTie.v proves that the regenerated skeleton computes fe_enforce - the function the theorems above compare with the plain
+   enforcer - for every key order, kind, state, container and request: which requests take the unfiltered path, that the
+   filter is applied before and cleared after the decision, and that the decision procedure inside is the ordinary one over
+   what the container's iteration hands out. *)
+From PyCasbin Require FastLang FastTie.
+From PyCasbinGen Require FastGen.
+
+Theorem C19_source_fast_enforce : forall k0 k1 k s p req,
+  FastTie.run_fast_enforce k0 k1 k s p req = Some (fe_enforce k0 k1 k s p req).
+Proof. exact FastTie.tie_fe_enforce. Qed.
+Print Assumptions C19_source_fast_enforce.
